@@ -342,6 +342,66 @@ theorem narrow_longitude_denotes (P : Profile) (dm : DefMsg) (fd : FieldDef) (pf
     simp only [hf, hpm, hb, ha, hk, hl, hsize, hsz, hc, if_true, l2, h2]
     simp
 
+/-- … and with an unsigned (or non-integer) base type by zero extension: the four-byte value is the
+    unsigned value of the narrow field. -/
+theorem narrow_unsigned_widens (arch : Endian) (btype : Nat) (hs : (Base.signed btype && Base.integer btype) = false) :
+    (∀ x : UInt8, arch.dec ((padTmp arch btype [x] 1 4).take 4) = wireNat arch [x]) ∧
+    (∀ x y : UInt8, arch.dec ((padTmp arch btype [x, y] 2 4).take 4) = wireNat arch [x, y]) := by
+  have e0 : (0 : UInt8).toNat = 0 := rfl
+  have hf : ∀ n : Nat, (Base.signed btype = true ∧ Base.integer btype = true ∧ n ≥ 128) = False := by
+    intro n
+    simp only [eq_iff_iff, iff_false, not_and]
+    intro h1 h2
+    rw [h1, h2] at hs; cases hs
+  constructor
+  · intro x
+    cases arch <;> simp only [padTmp, wireNat, Endian.dec, List.getLastD, List.headD, hf] <;>
+      simp [List.replicate, leNat, beNat, e0]
+  · intro x y
+    cases arch <;> simp only [padTmp, wireNat, Endian.dec, List.getLastD, List.headD, hf] <;>
+      simp [List.replicate, leNat, beNat, e0]
+
+/-- a latitude defined as one or two signed bytes: the two's-complement value of its own bytes
+    (always within ±90°, so `NewLatitude` keeps it) -/
+theorem narrow_latitude_denotes (P : Profile) (dm : DefMsg) (fd : FieldDef) (pf : PField) (pm : PMsg) (msg : Msg)
+    (ts : TsRef)
+    (hf : P.getField dm.global fd.num = some pf) (hpm : P.msg? dm.global = some pm)
+    (hb : tcBase pf.tcode = Base.sint32) (ha : tcArray pf.tcode = false) (hk : tcKind pf.tcode = .lat)
+    (hl : pm.layout[pf.sindex]? = some .lat)
+    (hs : Base.signed fd.btype = true) (hi : Base.integer fd.btype = true) :
+    (∀ x : UInt8, fd.size = 1 →
+      applyField P dm true fd [x] (some msg) ts =
+        .ok (some { msg with vals := setAt msg.vals pf.sindex (.lat (toSigned 8 (wireNat dm.arch [x]))) }) ts) ∧
+    (∀ x y : UInt8, fd.size = 2 →
+      applyField P dm true fd [x, y] (some msg) ts =
+        .ok (some { msg with vals := setAt msg.vals pf.sindex (.lat (toSigned 16 (wireNat dm.arch [x, y]))) }) ts) := by
+  obtain ⟨h1, h2⟩ := narrow_signed_widens dm.arch fd.btype hs hi
+  have hsz : Base.size Base.sint32 = 4 := by decide
+  have hne : Base.sint32 ≠ Base.string := by decide
+  have hc : (Base.sint32 ≠ Base.string ∧ (!false) = true ∧ Kind.lat ≠ Kind.native) = True := by
+    simp only [eq_iff_iff, iff_true]; exact ⟨hne, rfl, by decide⟩
+  have l1 : ∀ x : UInt8, (padTmp dm.arch fd.btype [x] 1 4).length = 4 := by
+    intro x; unfold padTmp; cases dm.arch <;> simp
+  have l2 : ∀ x y : UInt8, (padTmp dm.arch fd.btype [x, y] 2 4).length = 4 := by
+    intro x y; unfold padTmp; cases dm.arch <;> simp
+  have r8 : ∀ n : Nat, -128 ≤ toSigned 8 n ∧ toSigned 8 n ≤ 127 := by
+    intro n; unfold toSigned; simp only; split <;> omega
+  have r16 : ∀ n : Nat, -32768 ≤ toSigned 16 n ∧ toSigned 16 n ≤ 32767 := by
+    intro n; unfold toSigned; simp only; split <;> omega
+  constructor
+  · intro x hsize
+    unfold applyField
+    simp only [hf, hpm, hb, ha, hk, hl, hsize, hsz, hc, if_true, l1, h1]
+    have := r8 (wireNat dm.arch [x])
+    simp
+    split <;> first | rfl | omega | (split <;> first | rfl | omega)
+  · intro x y hsize
+    unfold applyField
+    simp only [hf, hpm, hb, ha, hk, hl, hsize, hsz, hc, if_true, l2, h2]
+    have := r16 (wireNat dm.arch [x, y])
+    simp
+    split <;> first | rfl | omega | (split <;> first | rfl | omega)
+
 /-- non-vacuity on the regenerated profile: record.position_long (message 20, field 1) is such a field -/
 example : (match Gen.profile.getField 20 1, Gen.profile.msg? 20 with
     | some pf, some pm => (tcBase pf.tcode == Base.sint32) && !tcArray pf.tcode && (tcKind pf.tcode == .lng) &&
